@@ -76,6 +76,11 @@ class Tr:
             return None if b is None else b + "." + n.attr
         return None
 
+    def field(self, d: str) -> str:
+        """the Lean field that stands for the attribute `self.<name>` (spec `fields` maps Python names to the model's)"""
+        name = d[5:].replace(".", "_")
+        return self.spec.get("fields", {}).get(name, name)
+
     def canon_src(self, n) -> str:
         """source text of an expression with aliased local names spelled as the attribute of self they stand for"""
         al = getattr(self, "alias", {})
@@ -140,7 +145,7 @@ class Tr:
             if isinstance(n, ast.Attribute) and n.attr in self.spec.get("attrs", {}) and not d.startswith("self."):
                 return f"{self.raw(n.value)}.{self.spec['attrs'][n.attr]}"
             if d.startswith("self.") and self.state:
-                return f"{self.state}.{d[5:].replace('.', '_')}"
+                return f"{self.state}.{self.field(d)}"
             if isinstance(n, ast.Name):
                 c = self.module_const(n.id)
                 return n.id if c is None else self.e(c)
@@ -196,6 +201,12 @@ class Tr:
         if isinstance(n, ast.BoolOp):
             op = " && " if isinstance(n.op, ast.And) else " || "
             return "(" + op.join(self.cond(v) for v in n.values) + ")"
+        if isinstance(n, ast.Compare) and len(n.ops) == 2 and all(isinstance(o, (ast.Lt, ast.LtE, ast.Gt, ast.GtE)) for o in n.ops) \
+                and (self.dotted(n.comparators[0]) is not None or isinstance(n.comparators[0], ast.Constant)):
+            # `a <= b < c` with a side-effect-free middle: both comparisons
+            first = ast.Compare(left=n.left, ops=[n.ops[0]], comparators=[n.comparators[0]])
+            second = ast.Compare(left=n.comparators[0], ops=[n.ops[1]], comparators=[n.comparators[1]])
+            return f"({self.e(first)} && {self.e(second)})"
         if isinstance(n, ast.Compare) and len(n.ops) == 1:
             a, b, op = n.left, n.comparators[0], n.ops[0]
             if isinstance(op, ast.In) and isinstance(b, ast.Tuple):
@@ -232,6 +243,9 @@ class Tr:
                 return f"({self.e(n.args[0])}).length"
             if isinstance(f, ast.Attribute) and f.attr == "join" and len(n.args) == 1 and isinstance(f.value, ast.Constant):
                 return f"(List.intercalate {self.e(f.value)} {self.e(n.args[0])})"
+            if isinstance(f, ast.Attribute) and f.attr == "find" and len(n.args) == 1 and isinstance(n.args[0], ast.Name) \
+                    and n.args[0].id in self.spec.get("find_names", {}):
+                return f"({self.spec['find_names'][n.args[0].id]} {self.e(f.value)})"        # index of the first occurrence, or -1
             if isinstance(f, ast.Attribute) and f.attr == "startswith" and len(n.args) == 1:
                 return f"({self.e(n.args[0])}).isPrefixOf {self.e(f.value)}"
             if isinstance(f, ast.Attribute) and f.attr == "endswith" and len(n.args) == 1:
@@ -398,7 +412,12 @@ class Tr:
         w = self.spec["thread"]
         if call.keywords and ent.get("args", True):
             raise Unsupported(f"keyword arguments of {ast.unparse(call.func)}")
-        args = "".join(" " + self.e(a) for a in call.args) if ent.get("args", True) else ""
+        if ent.get("error_arg"):
+            if len(call.args) != 1:
+                raise Unsupported(f"arguments of {ast.unparse(call.func)}")
+            args = " " + self.error_of(call.args[0])          # an exception object handed on: its tag
+        else:
+            args = "".join(" " + self.e(a) for a in call.args) if ent.get("args", True) else ""
         ret = ent.get("ret")
         if tgt is None:
             pat = ent.get("bind", "_")
@@ -458,21 +477,40 @@ class Tr:
             out += f"{ind}  let {w} := {op[0]['fn']} {w}{args}\n"
         return out + f"{ind}  ({w}, r)"
 
+    @staticmethod
+    def _evaluates(s, src: str) -> bool:
+        """does executing statement `s` evaluate the expression `src` BEFORE any of its nested statements runs?"""
+        if isinstance(s, ast.If) or isinstance(s, ast.While):
+            return src in ast.unparse(s.test)
+        if isinstance(s, ast.For):
+            return src in ast.unparse(s.iter)
+        if isinstance(s, (ast.Try, ast.With)):
+            return False
+        return src in ast.unparse(s)
+
     def block(self, stmts, ind: str) -> str:
         if not stmts:
             if self.spec.get("implicit_return"):
                 return ind + self.ret(None)
             raise Unsupported("control falls off the end")
         s, rest = stmts[0], stmts[1:]
+        hoisted = self._hoist_test_call(s)
+        if hoisted is not None:
+            return self.block(hoisted + list(rest), ind)
         # an opaque sub-expression that may raise: evaluated (once) by the first statement that mentions it
         call = self._inline_target(s)
         if call is not None:
             return self.block(self._inline(s, call, rest), ind)
         is_doc = isinstance(s, ast.Expr) and isinstance(s.value, ast.Constant)
         for src, (param, bound) in list(self.spec.get("raising", {}).items()):
-            if not is_doc and src not in self.opaque and src in ast.unparse(s):
+            if not is_doc and src not in self.opaque and self._evaluates(s, src):
+                saved_opaque = dict(self.opaque)
                 self.opaque[src] = bound
-                return f"{ind}match {param} with\n{ind}| .error e => .error e\n{ind}| .ok {bound} =>\n" + self.block(stmts, ind + "  ")
+                w = self.spec.get("thread")
+                err = f"({w}, .error e)" if w and self.spec.get("mode") == "except" else ".error e"
+                out = f"{ind}match {param} with\n{ind}| .error e => {err}\n{ind}| .ok {bound} =>\n" + self.block(stmts, ind + "  ")
+                self.opaque = saved_opaque          # a sibling branch that reaches the expression evaluates it itself
+                return out
         if isinstance(s, ast.Assign) and ast.unparse(s.value) in self.spec.get("skip_assign", ()):
             return self.block(rest, ind)
         if isinstance(s, ast.Raise) and self.spec.get("mode") == "except" and s.exc is not None:
@@ -492,6 +530,24 @@ class Tr:
             return self.world_stmt(op[0], op[1], op[2], rest, ind)
         if isinstance(s, ast.Try) and self.spec.get("world_ops") and s.finalbody:
             return self.try_stmt(s, rest, ind)
+        if isinstance(s, (ast.AsyncWith, ast.With)) and self.spec.get("world_ops") and self.spec.get("ctx_finally"):
+            # `[async] with self._cm(...) as …: body` where `_cm` is a private (async) context manager of the class that ends in
+            # `try: yield …  finally: F`: the block is `try: body  finally: F` (what precedes the yield happened before the block)
+            if len(s.items) != 1 or not isinstance(s.items[0].context_expr, ast.Call) or self._helper_name(s.items[0].context_expr) is None:
+                raise Unsupported("with statement")
+            mname = self._helper_name(s.items[0].context_expr)
+            m = next((f for holder in ([self.scope[1]] if self.scope and self.scope[1] is not None else []) + ([self.scope[0]] if self.scope else [])
+                      for f in holder.body if isinstance(f, (ast.FunctionDef, ast.AsyncFunctionDef)) and f.name == mname), None)
+            deco = [ast.unparse(d).split(".")[-1] for d in m.decorator_list] if m is not None else []
+            last = m.body[-1] if m is not None and m.body else None
+            if not (m is not None and any(d in ("asynccontextmanager", "contextmanager") for d in deco) and isinstance(last, ast.Try)
+                    and not last.handlers and not last.orelse and len(last.body) == 1 and isinstance(last.body[0], ast.Expr)
+                    and isinstance(last.body[0].value, ast.Yield)
+                    and sum(isinstance(x, (ast.Yield, ast.YieldFrom)) for x in ast.walk(m)) == 1):
+                raise Unsupported("context manager shape")
+            inner = s.body[0] if len(s.body) == 1 and isinstance(s.body[0], ast.Try) and not s.body[0].finalbody and not s.body[0].orelse else None
+            eq = ast.Try(body=list(inner.body) if inner else list(s.body), handlers=list(inner.handlers) if inner else [], orelse=[], finalbody=list(last.finalbody))
+            return self.try_stmt(eq, rest, ind)
         if isinstance(s, ast.With) and self.spec.get("with_ctx"):
             return self.with_stmt(s, rest, ind)
         # `x = await f(...)` / `return await f(...)`: the await itself is not modelled (the callee is a parameter or the function itself)
@@ -577,7 +633,7 @@ class Tr:
                     val = "false"                       # an Optional attribute the spec represents by its presence
                 elif self.types.get(d, "").startswith("opt") and not isnone and not self.typ(s.value).startswith("opt"):
                     val = f"some ({val})"
-                return f"{ind}let {self.state} := {{ {self.state} with {d[5:]} := {val} }}\n" + self.block(rest, ind)
+                return f"{ind}let {self.state} := {{ {self.state} with {self.field(d)} := {val} }}\n" + self.block(rest, ind)
             vt = self.typ(s.value)
             # an Optional value keeps its Option type when it is only bound to a name
             val = self.raw(s.value) if vt.startswith("opt") and self.dotted(s.value) is not None else self.e(s.value)
@@ -597,8 +653,21 @@ class Tr:
             if op == "+" and self.typ(s.target) == "str":
                 op = "++"
             if d.startswith("self."):
-                return f"{ind}let {self.state} := {{ {self.state} with {d[5:]} := {self.e(s.target)} {op} {self.e(s.value)} }}\n" + self.block(rest, ind)
+                return f"{ind}let {self.state} := {{ {self.state} with {self.field(d)} := {self.e(s.target)} {op} {self.e(s.value)} }}\n" + self.block(rest, ind)
             return f"{ind}let {d} := {d} {op} {self.e(s.value)}\n" + self.block(rest, ind)
+        if isinstance(s, ast.If) and s.orelse and self._none_test(s.test) is not None:
+            # `if x is None: A else: B` (also what inlining makes of `if x is None: …; return`): B sees the value of x
+            dn, is_none = self._none_test(s.test)
+            nb, sb = (s.body, s.orelse) if is_none else (s.orelse, s.body)
+
+            def falls_(b):
+                return not b or not isinstance(b[-1], (ast.Return, ast.Raise))
+            saved = (dict(self.rename), dict(self.types))
+            none_branch = self.block(list(nb) + (list(rest) if falls_(nb) else []), ind + "  ")
+            old, fresh = self._narrow(dn)
+            some_branch = self.block(list(sb) + (list(rest) if falls_(sb) else []), ind + "  ")
+            self.rename, self.types = saved
+            return f"{ind}match {old} with\n{ind}| none =>\n{none_branch}\n{ind}| some {fresh} =>\n{some_branch}"
         if isinstance(s, ast.If) and not s.orelse and self._none_test(s.test) is not None:
             dn, is_none = self._none_test(s.test)
             term = bool(s.body) and isinstance(s.body[-1], (ast.Return, ast.Raise))
@@ -692,7 +761,7 @@ class Tr:
             elif d is not None and d.startswith("self.") and self.state:
                 pat = "v'"
                 val = f"some {pat}" if self.types.get(d, "").startswith("opt") else pat
-                okb = f"{ind}  let {self.state} := {{ {self.state} with {d[5:]} := {val} }}\n" + self.block(rest, ind + "  ")
+                okb = f"{ind}  let {self.state} := {{ {self.state} with {self.field(d)} := {val} }}\n" + self.block(rest, ind + "  ")
             else:
                 raise Unsupported("target of a guarded call")
             return f"{ind}match {fn}{argstr} with\n{ind}| .error {h.name or '_'} =>\n{err}\n{ind}| .ok {pat} =>\n{okb}"
@@ -712,6 +781,39 @@ class Tr:
                 raise Unsupported("except body")
             return f"{ind}match {self.opaque[call]} with\n{ind}| none => {self.ret(h[0].value)}\n{ind}| some {x} =>\n" + self.block(rest, ind + "  ")
         raise Unsupported(f"statement {type(s).__name__}: {ast.unparse(s)[:50]}")
+
+    def _hoist_test_call(self, s):
+        """`if A and [not] self._h(...): B [else: C]` with `_h` a private method that can be inlined: the call is evaluated by a
+        statement of its own, exactly where Python evaluates it (after A held), so that it can be inlined like any other statement"""
+        if not isinstance(s, ast.If) or not self.scope or not self.spec.get("hoist_tests"):
+            return None
+
+        def helper_call(e):
+            c = e.operand if isinstance(e, ast.UnaryOp) and isinstance(e.op, ast.Not) else e
+            if isinstance(c, ast.Call) and self._inline_target(ast.Expr(value=c)) is c:
+                return c
+            return None
+
+        t = s.test
+        self._nh = getattr(self, "_nh", 0)
+        if helper_call(t) is not None:
+            pre, last = [], t
+        elif isinstance(t, ast.BoolOp) and isinstance(t.op, ast.And) and helper_call(t.values[-1]) is not None \
+                and not any(helper_call(x) is not None or any(isinstance(y, ast.Call) and self._helper_name(y) for y in ast.walk(x)) for x in t.values[:-1]):
+            pre, last = t.values[:-1], t.values[-1]
+        else:
+            return None
+        self._nh += 1
+        tmp = f"test_{self._nh}"
+        c = helper_call(last)
+        cond = ast.Name(id=tmp, ctx=ast.Load())
+        if isinstance(last, ast.UnaryOp):
+            cond = ast.UnaryOp(op=ast.Not(), operand=cond)
+        inner = [ast.Assign(targets=[ast.Name(id=tmp, ctx=ast.Store())], value=c, lineno=0), ast.If(test=cond, body=s.body, orelse=s.orelse)]
+        if not pre:
+            return inner
+        guard = pre[0] if len(pre) == 1 else ast.BoolOp(op=ast.And(), values=list(pre))
+        return [ast.If(test=guard, body=inner, orelse=s.orelse)]
 
     # ---- statement-level inlining of private helpers (a function split into helpers translates to the same definition) --------
     def _inline_target(self, s):
@@ -1112,7 +1214,7 @@ SPECS = [
          error_classes=("ConnectionError", "TimeoutError"),
          errors={"Peer certificate of ": ".unreadable", "Request timeout": ".timeout"},
          error_ctors={"CertificateChangedError": (".changed", [2, 3])},
-         exc_patterns={"TimeoutError": ".timeout"}, assert_error=".assertion"),
+         exc_patterns={"TimeoutError": ".timeout"}, assert_error=".assertion", ctx_finally=True),
     dict(name="uploadTail", file="client/session.py", cls="GeminiClient", func="upload", mode="except", thread="w", start="last_try",
          header=("def uploadTail {W C R : Type} (E : Cl.TofuEnv W C R) (tofu : Bool) (host port : Nat) (w : W) : W × Except Cl.CErr R :="), ret_type="W × Except Cl.CErr R",
          rename={"self.tofu_db": "tofu", "parsed.hostname": "host", "parsed.port": "port"},
@@ -1132,7 +1234,7 @@ SPECS = [
          error_classes=("ConnectionError", "TimeoutError"),
          errors={"Peer certificate of ": ".unreadable", "Upload timeout": ".timeout"},
          error_ctors={"CertificateChangedError": (".changed", [2, 3])},
-         exc_patterns={"TimeoutError": ".timeout"}, assert_error=".assertion"),
+         exc_patterns={"TimeoutError": ".timeout"}, assert_error=".assertion", ctx_finally=True),
     _tofu_spec("tofuVerify", "verify", "def tofuVerify {W H : Type} (D : Misc.SqlEnv W H) (fpOf : Nat → Nat) (w : W) (hostname : H) (port cert : Nat) : W × Except Misc.DbErr (Bool × List Char) :=",
                "W × Except Misc.DbErr (Bool × List Char)"),
     _tofu_spec("tofuTrust", "trust", "def tofuTrust {W H : Type} (D : Misc.SqlEnv W H) (fpOf : Nat → Nat) (w : W) (hostname : H) (port cert : Nat) : W × Except Misc.DbErr Unit :=",
@@ -1157,6 +1259,34 @@ SPECS = [
                      "self.titan_request.client_cert_fingerprint": ("Srv.PState.noteCert", False)},
          world_ops={"self._send_error_response": dict(fn="E.sendError", ret=None), "self._handle_gemini_request": dict(fn="E.geminiRequest", ret=None),
                     "self._process_titan_upload": dict(fn="E.processUpload", ret=None), "self.timeout_handle.cancel": dict(fn="Srv.PState.cancelTimer", ret=None)}),
+    dict(name="clientDataReceived", file="client/protocol.py", cls="GeminiClientProtocol", func="data_received", mode="except", state="s", thread="s",
+         implicit_return=True, header="def clientDataReceived (env : Cl.Env) (s : Cl.CSt) (data : List Nat) : Cl.CSt × Except Unit Unit :=",
+         ret_type="Cl.CSt × Except Unit Unit",
+         fields={"buffer": "buf", "header_received": "headerReceived"},
+         contains_names={"CRLF": "Cl.hasCRLF"}, split_names={"CRLF": "Cl.cutCRLF"},
+         rename={"MAX_RESPONSE_HEADER_SIZE": "(Cl.maxHeader : Int)", "MAX_RESPONSE_BODY_SIZE": "Cl.maxBody", "self.transport": "true"},
+         types={"self.buffer": "str", "data": "str", "self.header_received": "bool", "self.status": "optnum", "header_end": "num", "header_line": "str", "body": "str",
+                "self.transport": "bool", "MAX_RESPONSE_HEADER_SIZE": "num", "MAX_RESPONSE_BODY_SIZE": "num"},
+         find_names={"CRLF": "Cl.findInt"}, hoist_tests=True, pytypes={"bytes": ("str", "List Nat")},
+         raising={"header_line.decode('utf-8')": ("Cl.decodeE env header_line", "text")},
+         error_classes=("ValueError", "Exception"),
+         errors={"Response header too long": "\"headerTooLong\"", "Response body exceeds maximum size": "\"tooBig\""},
+         world_ops={"self._set_error": dict(fn="Cl.setError", ret=None, error_arg=True), "self.transport.close": dict(fn="Cl.closeTransport", ret=None),
+                    "self._parse_header": dict(fn="Cl.parseHeader", ret=None)}),
+    dict(name="titanClientDataReceived", file="client/protocol.py", cls="TitanClientProtocol", func="data_received", mode="except", state="s", thread="s",
+         implicit_return=True, header="def titanClientDataReceived (env : Cl.Env) (s : Cl.CSt) (data : List Nat) : Cl.CSt × Except Unit Unit :=",
+         ret_type="Cl.CSt × Except Unit Unit",
+         fields={"buffer": "buf", "header_received": "headerReceived"},
+         contains_names={"CRLF": "Cl.hasCRLF"}, split_names={"CRLF": "Cl.cutCRLF"},
+         rename={"MAX_RESPONSE_HEADER_SIZE": "(Cl.maxHeader : Int)", "MAX_RESPONSE_BODY_SIZE": "Cl.maxBody", "self.transport": "true"},
+         types={"self.buffer": "str", "data": "str", "self.header_received": "bool", "self.status": "optnum", "header_end": "num", "header_line": "str", "body": "str",
+                "self.transport": "bool", "MAX_RESPONSE_HEADER_SIZE": "num", "MAX_RESPONSE_BODY_SIZE": "num"},
+         find_names={"CRLF": "Cl.findInt"}, hoist_tests=True, pytypes={"bytes": ("str", "List Nat")},
+         raising={"header_line.decode('utf-8')": ("Cl.decodeE env header_line", "text")},
+         error_classes=("ValueError", "Exception"),
+         errors={"Response header too long": "\"headerTooLong\"", "Response body exceeds maximum size": "\"tooBig\""},
+         world_ops={"self._set_error": dict(fn="Cl.setError", ret=None, error_arg=True), "self.transport.close": dict(fn="Cl.closeTransport", ret=None),
+                    "self._parse_header": dict(fn="Cl.parseHeader", ret=None)}),
     dict(name="parseUrl", file="utils/url.py", cls=None, func="parse_url", mode="except", numfmt="Url.natToStr",
          header=("def parseUrl (url scheme : Url.Str) (hostname username password : Option Url.Str) (fragment : Url.Str) (splitR : Except Url.Err Unit)\n"
                  "    (portR : Except Url.Err (Option Nat)) (path netloc query : Url.Str) : Except Url.Err Url.Parsed :="),
@@ -1206,6 +1336,7 @@ PRELUDE = {
     "uploadGate": ([], []),
     "followRedirects": (["NauyacaVerif.Cl.Redirect"], []),
     "dataReceived": (["NauyacaVerif.Srv.PState"], []),
+    "clientDataReceived": (["NauyacaVerif.Cl.PyClient"], []), "titanClientDataReceived": (["NauyacaVerif.Cl.PyClient"], []),
     "getSingleTail": (["NauyacaVerif.Cl.TofuEnv"], []), "uploadTail": (["NauyacaVerif.Cl.TofuEnv"], []),
     "tofuVerify": (["NauyacaVerif.Misc.SqlEnv"], []), "tofuTrust": (["NauyacaVerif.Misc.SqlEnv"], []), "tofuRevoke": (["NauyacaVerif.Misc.SqlEnv"], []),
     "tofuRevokeHost": (["NauyacaVerif.Misc.SqlEnv"], []), "tofuClear": (["NauyacaVerif.Misc.SqlEnv"], []),
@@ -1241,7 +1372,7 @@ def translate_all() -> tuple[dict[str, str], dict[str, str]]:
             spec["_helpers"], spec["_helper_types"] = {}, {}
             stmts = list(f.body)
             if spec.get("start") == "last_try":
-                tries = [i for i, x in enumerate(stmts) if isinstance(x, ast.Try)]
+                tries = [i for i, x in enumerate(stmts) if isinstance(x, ast.Try) or (isinstance(x, (ast.AsyncWith, ast.With)) and spec.get("ctx_finally"))]
                 if not tries:
                     raise Unsupported("no try statement")
                 stmts = stmts[tries[-1]:]
